@@ -63,8 +63,12 @@ func verifyFunc(prog *Prog, fs *FuncSpec, mode Mode, opts SolveOpts) (res *FuncR
 		}
 		v.run()
 	}()
+	tRun := time.Since(t0).Seconds()
 	if res.ToolErr == "" {
 		dischargeAll(v, opts)
+	}
+	if os.Getenv("GOCV_STATS") != "" {
+		fmt.Printf("  stats: symbolic execution %.1fs (pruned %d), discharge %.1fs\n", tRun, v.pruned, time.Since(t0).Seconds()-tRun)
 	}
 	res.Obls = v.obls
 	res.WallS = time.Since(t0).Seconds()
@@ -171,6 +175,17 @@ func printFuncResult(r *FuncResult, verbose bool) int {
 					fmt.Printf("       at %s\n", o.Pos)
 				}
 			}
+		}
+	}
+	if os.Getenv("GOCV_STATS") != "" {
+		by := map[string]int{}
+		tm := map[string]float64{}
+		for _, o := range r.Obls {
+			by[o.Stage+"/"+o.Solver]++
+			tm[o.Stage+"/"+o.Solver] += o.TimeS
+		}
+		for k, n := range by {
+			fmt.Printf("  stats: %-24s %4d obligations %.1fs solver time\n", k, n, tm[k])
 		}
 	}
 	fmt.Printf("FUNC %s.%s [%s]: %d/%d obligations discharged (%d queries, %d paths) %.1fs\n", r.Pkg, r.Key, r.Mode, ok, len(names), len(r.Obls), r.V.paths, r.WallS)
